@@ -438,6 +438,20 @@ fn main() {
                     Err(_) => println!("PANIC"),
                 }
             }
+            // reqaddr <hex request> -> "OK <origin>|<proxy,proxy,..>|<port>" (peer 127.0.0.1:4000) | ERR | PANIC
+            "reqaddr" => {
+                let data = unhex(parts[1]);
+                let addr: std::net::SocketAddr = "127.0.0.1:4000".parse().unwrap();
+                let r = std::panic::catch_unwind(move || {
+                    let mut cur = std::io::Cursor::new(data);
+                    humphrey::http::Request::from_stream(&mut cur, addr)
+                });
+                match r {
+                    Ok(Ok(q)) => println!("OK {}|{}|{}", q.address.origin_addr, q.address.proxies.iter().map(|p| p.to_string()).collect::<Vec<_>>().join(","), q.address.port),
+                    Ok(Err(_)) => println!("ERR"),
+                    Err(_) => println!("PANIC"),
+                }
+            }
             // pctenc <hex bytes> -> hex of the percent-encoded text | PANIC
             "pctenc" => {
                 use humphrey::percent::PercentEncode;
